@@ -168,6 +168,14 @@ class maximize(minimize):
             ngradfunc = gradfunc
         super().__init__(nfunc,x0,ngradfunc,method,**kwargs)
 
+    def solve(self):
+        """Runs optimization algorithm and returns solution and info (func and grad refer to the maximized function)."""
+        sol, info = super().solve()
+        info["func"] = -info["func"]
+        if info["grad"] is not None:
+            info["grad"] = -info["grad"]
+        return sol, info
+
 
 
 class LS(object):
